@@ -286,7 +286,16 @@ class PyDriver:
             return 'ok %d' % self.hb.ij_to_s((bits2f(t[1]), bits2f(t[2])), int(t[3]), t[4])
         if op == 'l2c':
             p, r = (bits2f(t[1]), bits2f(t[2])), int(t[3])
-            return 'ok %d' % self.reused_arg('lonlat_to_cell', p, lambda q: self.a5.lonlat_to_cell(q, r), lambda v: v)
+            ans = self.reused_arg('lonlat_to_cell', p, lambda q: self.a5.lonlat_to_cell(q, r), lambda v: v)
+            if p[0].is_integer() and p[1].is_integer() and abs(p[0]) < 1e15:
+                # whole degrees are usually written as Python ints by a caller
+                try:
+                    as_int = self.a5.lonlat_to_cell((int(p[0]), int(p[1])), r)
+                except Exception as e:  # noqa
+                    as_int = 'raises ' + type(e).__name__
+                if as_int != ans:
+                    raise StateDependent(f'`lonlat_to_cell` answers {as_int} for the int coordinates ({int(p[0])}, {int(p[1])}) and {ans} for the equal floats')
+            return 'ok %d' % ans
         if op == 'c2l':
             lo, la = self.a5.cell_to_lonlat(int(t[1]))
             return 'ok %d %d' % (fbits(lo), fbits(la))
